@@ -519,6 +519,7 @@ NN_FILES = ["rl4co/models/nn/attention.py", "rl4co/models/nn/ops.py", "rl4co/mod
             "rl4co/models/zoo/l2d/encoder.py", "rl4co/models/zoo/l2d/decoder.py", "rl4co/models/zoo/l2d/policy.py",
             "rl4co/models/zoo/matnet/encoder.py", "rl4co/models/zoo/matnet/decoder.py",
             "rl4co/models/common/constructive/base.py", "rl4co/models/common/constructive/autoregressive/policy.py"]
+GLOBAL_REDUCERS = {"max", "min", "mean", "sum", "std", "var", "amax", "amin", "median", "norm", "prod"}
 REDUCERS = {"mean", "sum", "std", "var", "softmax", "log_softmax", "cumsum", "amax", "amin", "prod", "logsumexp", "norm"}
 
 
@@ -573,6 +574,11 @@ def batch_dim_reductions(ex):
                         d = dim_of(n, is_method)
                         if d is not None and has_zero(d):
                             hits.append(f"{short}:{qn}:{n.func.attr}")
+                    # a reduction over ALL dims (no dim argument) of a td field: `td["num_agents"].max()` mixes the batch
+                    if isinstance(n, ast.Call) and isinstance(n.func, ast.Attribute) and n.func.attr in GLOBAL_REDUCERS \
+                            and not n.args and not any(k.arg in ("dim", "axis") for k in n.keywords) \
+                            and "td[" in ex.norm(n.func.value):
+                        hits.append(f"{short}:{qn}:global-{n.func.attr}")
         if not seen_any:
             return None
         hits = sorted(set(hits))
